@@ -1,4 +1,5 @@
 import Driver.Ops.Cidr
+import Driver.Ops.Conc
 import Driver.Ops.Lifecycle
 import Driver.Ops.Merge
 import Driver.Ops.Tftp
@@ -10,6 +11,7 @@ open Lean Driver
 
 def allOps : List (String × Op) :=
   Driver.Cidr.ops ++
+  Driver.Conc.ops ++
   Driver.Lifecycle.ops ++
   Driver.Merge.ops ++
   Driver.Tftp.ops
